@@ -18,7 +18,7 @@ import ast
 from itertools import product
 
 from ..absmachine import AbsMachine, ADict, Obj, Outcome, Raise, SymInt, UNKNOWN, class_isinstance
-from ..astx import attr_writes, call_name, call_sites, calls, enclosing_with_items, method_name, walk_local
+from ..astx import attr_writes, call_name, call_sites, calls, enclosing_with_items, method_name, parents, walk_local
 from ..cfg import CFG
 from ..exctable import ExcTable
 from ..explore import Explorer
@@ -321,7 +321,63 @@ def send_and_receive(chk: Check, repo: Repo) -> None:
     chk.ob("expected-number-writers", rq.site(), sorted(w.func.qualname for w in ws) == ["P2PConnection.__init__", "P2PConnection.process"], f"_expected_sequence_number writers: {[w.func.qualname for w in ws]}", key="expected-writers")
 
 
+def error_conversion_and_leftovers(chk: Check, repo: Repo) -> None:
+    """(1) Every hand-over of a telegram to the link layer inside a P2PConnection method is covered by handlers that
+    turn a CommunicationError (ConfirmationError is one) into a management error — a call sitting in an `except` body
+    is NOT covered by that try's other handlers and needs its own.  (2) request() drops a telegram left in the
+    response future by an earlier, failed exchange before it sends, so each response is used for its own request."""
+    exc = ExcTable(repo)
+    cls = repo.cls(M, "P2PConnection")
+    n_sites = 0
+    for mname in ("connect", "disconnect", "send_data"):
+        f = cls.methods[mname]
+        chk.unit(f)
+        par = parents(f.node)
+        for c in calls(f.node):
+            if not call_name(c).endswith("cemi_handler.send_telegram"):
+                continue
+            n_sites += 1
+            covered = False
+            node: ast.AST = c
+            while node is not f.node:
+                up = par[node]
+                if isinstance(up, ast.Try) and any(node is b or any(node is y for y in ast.walk(b)) for b in up.body):
+                    for h in up.handlers:
+                        names = [ast.unparse(x).split(".")[-1] for x in (h.type.elts if isinstance(h.type, ast.Tuple) else [h.type])] if h.type is not None else ["BaseException"]
+                        if any(exc.is_subclass("CommunicationError", n_) for n_ in names):
+                            rs = [x for b in h.body for x in ast.walk(b) if isinstance(x, ast.Raise) and x.exc is not None]
+                            if rs and all(isinstance(r.exc, ast.Call) and exc.is_subclass(call_name(r.exc).split(".")[-1], "ManagementConnectionError") for r in rs):
+                                covered = True
+                node = up
+            cfg_f = CFG(f.node)
+            mf_f = cfg_f.must_facts()
+            unacked = any(("wait_for_ack", False) in mf_f.get(n_.id, frozenset()) for n_ in cfg_f.nodes if n_.ast is not None and n_.kind == "stmt" and any(y is c for y in ast.walk(n_.ast)))
+            if unacked:
+                # the fire-and-forget form send_data(..., wait_for_ack=False) is not a management request: request() always
+                # passes the default (checked below); its link errors reach the caller of that explicit send unchanged
+                chk.ob("link-errors-become-management-errors", f.site(c), True, f"P2PConnection.{mname}: unacknowledged send (wait_for_ack=False) — not on the request path", key=f"convert|{mname}|unacked")
+                continue
+            chk.ob("link-errors-become-management-errors", f.site(c), covered, f"P2PConnection.{mname}: `{ast.unparse(c)[:60]}` " + ("is covered by a handler converting CommunicationError to a management error" if covered else "is not covered by any handler for CommunicationError that applies at this point (handlers of a try do not cover its own except bodies): the link error escapes request()/send_data() as a non-management error"), key=f"convert|{mname}|{n_sites}")
+    chk.floor("link-layer hand-overs in P2PConnection", n_sites, 4)
+    rq = repo.func(M, "P2PConnection.request")
+    cfg = CFG(rq.node)
+    sd_calls = [x for x in calls(rq.node) if call_name(x) == "self.send_data"]
+    chk.ob("link-errors-become-management-errors", rq.site(), len(sd_calls) == 1 and len(sd_calls[0].args) == 1 and not sd_calls[0].keywords, "request() sends with the acknowledged form send_data(payload)", key="convert|request-uses-acked-send")
+    sends = [n.id for n in cfg.nodes if n.ast is not None and n.kind == "stmt" and any(call_name(x) == "self.send_data" for x in calls(n.ast))]
+    drops = []
+    for n in walk_local(rq.node):
+        if isinstance(n, ast.If) and ast.unparse(n.test) == "self._response_waiter.done()":
+            if any(isinstance(b, ast.Assign) and ast.unparse(b.targets[0]) == "self._response_waiter" and isinstance(b.value, ast.Call) and call_name(b.value).endswith("create_future") for b in n.body):
+                drops.append(n)
+    ok = False
+    if len(sends) == 1 and drops:
+        tests = [x.id for x in cfg.nodes if x.kind == "test" and x.ast is drops[0].test]
+        ok = any(cfg.dominates(t, sends[0]) for t in tests)
+    chk.ob("leftover-response-is-dropped-before-sending", rq.site(), ok, "request(): a response future that is already done when the request starts is replaced before send_data (what it holds answers an earlier exchange)" if ok else "request() sends without clearing a response left over by an earlier exchange (answer to a request that failed on its acknowledge, or arrived after the response timeout): that telegram is returned as the answer to this request and the real answer is dropped", key="leftover-response")
+
+
 def run(chk: Check, repo: Repo) -> None:
+    error_conversion_and_leftovers(chk, repo)
     p2p_process(chk, repo)
     mgmt_process(chk, repo)
     send_and_receive(chk, repo)
